@@ -335,7 +335,7 @@ pub fn run_pool(id: usize, rng: &mut Rng) -> String {
 fn run_kind(id: usize, rng: &mut Rng, pool_view: bool) -> String {
     let burst = rng.chance(1, 4) || (pool_view && rng.chance(1, 2));
     let sc = if burst { gen_burst(rng) } else { ctl_queue::gen(rng) };
-    let cfg = Config { seed: rng.next(), p_timer: *rng.pick(&[0u64, 0, 30, 200]), p_spurious: *rng.pick(&[0u64, 0, 0, 40, 200]), max_steps: 2_000_000, ..Config::default() };
+    let cfg = Config { seed: rng.next(), p_timer: *rng.pick(&[0u64, 0, 30, 200]), p_spurious: *rng.pick(&[0u64, 0, 0, 40, 200]), p_preempt: *rng.pick(&[0u64, 0, 0, 100, 400]), max_steps: 2_000_000, ..Config::default() };
     let hist: Arc<StdMutex<Vec<Vec<String>>>> = Arc::new(StdMutex::new(sc.cons.iter().map(|_| vec![]).collect()));
     let h2 = hist.clone();
     let prods = sc.prods.clone();
@@ -468,11 +468,12 @@ fn run_kind(id: usize, rng: &mut Rng, pool_view: bool) -> String {
             })
             .collect();
         return format!(
-            "pool id={} anon=1 burst={} seed={} ptimer={} | labels={} started={} live_end={} quiet={} aborted={} clock={}",
+            "pool id={} anon=1 burst={} seed={} ptimer={} preempt={} | labels={} started={} live_end={} quiet={} aborted={} clock={}",
             id,
             if burst { 1 } else { 0 },
             cfg.seed,
             cfg.p_timer,
+            ctl_queue::preempted(&rep),
             pool_labels(&rep),
             started.join(","),
             live_end,
@@ -483,11 +484,12 @@ fn run_kind(id: usize, rng: &mut Rng, pool_view: bool) -> String {
     }
     let labels = ctl_queue::map_labels(&rep);
     format!(
-        "queue id={} anon=1 burst={} seed={} ptimer={} prods={} cons={} | labels={} hist={} left={} blocked={} quiet={} aborted={} clock={} live_end={} whole={}",
+        "queue id={} anon=1 burst={} seed={} ptimer={} preempt={} prods={} cons={} | labels={} hist={} left={} blocked={} quiet={} aborted={} clock={} live_end={} whole={}",
         id,
         if burst { 1 } else { 0 },
         cfg.seed,
         cfg.p_timer,
+        ctl_queue::preempted(&rep),
         sc.prods.iter().map(|p| ctl_queue::enc_p(p)).collect::<Vec<_>>().join("|"),
         sc.cons.iter().map(|c| ctl_queue::enc_c(c)).collect::<Vec<_>>().join("|"),
         labels,
